@@ -203,3 +203,87 @@ fn c12_fd_dropped_after_ring() {
     kani::cover!(true);
     std::mem::forget(queue);
 }
+
+// ===========================================================================
+// Glue scenario (thorough): one read through the public API, end to end.
+// ===========================================================================
+
+fn enter_noop(_s: &crate::io_uring::Shared, _m: u32, _f: u32, _t: Option<std::time::Duration>) -> std::io::Result<u32> {
+    Ok(0)
+}
+
+//@ prop: C02 C01 C13
+//@ tier: thorough
+//@ what: end-to-end glue for one read: Future::poll submits (request found in the ring memory), the model kernel consumes it, writes n bytes through the address in the request and posts a completion carrying the request's user_data; Ring::poll delivers it (waker woken once); the next Future::poll resolves with the caller's buffer holding exactly those n bytes -- user_data survives the round trip through SQE and CQE memory, the buffer the kernel wrote is the one handed back
+//@ bound: one read into a Vec of capacity 4; n in 0..=4 symbolic, bytes symbolic; ring SQ=2/CQ=2, counters 0
+//@ encodes: io::AsyncFd::read; <io::Read as Future>::poll; io_uring::op::poll_inner; io_uring::sq::Submissions::add; Ring::poll; io_uring::cq::Completions::poll; io_uring::cq::Completion::process; <io_uring::io::ReadOp as FdOp>::{fill_submission,map_ok}
+//@ stubs: io_uring::Shared::enter -> no-op model (never needed: a completion is available); crate::lock -> try_lock model; <core::io::CustomOwner as Drop>::drop -> no-op; Waker -> direct calls
+//@ timeout: 2400
+//@ mem_gb: 45
+#[kani::proof]
+#[kani::unwind(3)]
+#[kani::stub(crate::io_uring::Shared::enter, enter_noop)]
+#[kani::stub(crate::lock, crate::verif_stubs::lock_model)]
+#[kani::stub(<core::io::CustomOwner as core::ops::Drop>::drop, crate::verif_stubs::custom_owner_drop_noop)]
+#[kani::stub(<std::task::Waker as std::ops::Drop>::drop, crate::io_uring::verif_kernel::waker_drop_direct)]
+#[kani::stub(<std::task::Waker as std::clone::Clone>::clone, crate::io_uring::verif_kernel::waker_clone_direct)]
+#[kani::stub(std::task::Waker::wake, crate::io_uring::verif_kernel::waker_wake_direct)]
+#[kani::stub(std::task::Waker::wake_by_ref, crate::io_uring::verif_kernel::waker_wake_by_ref_direct)]
+fn scn_read_roundtrip() {
+    use std::future::Future;
+    use std::pin::Pin;
+    use std::task::{Context, Poll};
+    k::install(k::base_table());
+    k::sq_set(0, 0);
+    let mem = k::cq_mem();
+    mem.head.store(0, Ordering::Relaxed);
+    mem.tail.store(0, Ordering::Relaxed);
+    let sq = crate::io_uring::sq::verif_c04::submissions_in_place(2, false, false);
+    let queue = SubmissionQueue(sq.clone());
+    let mut ring = ManuallyDrop::new(Ring { cq: cqh::build_completions(2), sq });
+    let fd = ManuallyDrop::new(unsafe { AsyncFd::from_raw(5, Kind::File, queue.clone()) });
+    let buf: Vec<u8> = Vec::with_capacity(4);
+    let base = buf.as_ptr();
+    let mut fut = fd.read(buf);
+    let w = k::waker(0);
+    let mut ctx = Context::from_waker(&w);
+    // 1. submit
+    assert!(Pin::new(&mut fut).poll(&mut ctx).is_pending());
+    assert!(k::sq_tail() == 1);
+    let req = k::sqe_view(k::sqe(0));
+    assert!(req.opcode == 22 && req.fd == 5 && req.addr == base.addr() as u64 && req.len == 4 && req.off == u64::MAX);
+    // 2. the kernel consumes the request, performs the read and posts the completion
+    k::sq_mem().head.store(1, Ordering::Relaxed);
+    let n: u32 = kani::any();
+    kani::assume(n <= 4);
+    let data: [u8; 4] = kani::any();
+    // same address (asserted above); written through the pointer with known
+    // provenance: an integer-derived pointer makes CBMC case-split over all objects
+    let dst = base.cast_mut();
+    if n > 0 { unsafe { dst.write(data[0]) }; }
+    if n > 1 { unsafe { dst.add(1).write(data[1]) }; }
+    if n > 2 { unsafe { dst.add(2).write(data[2]) }; }
+    if n > 3 { unsafe { dst.add(3).write(data[3]) }; }
+    mem.cqes[0].user_data = req.user_data;
+    mem.cqes[0].res = n as i32;
+    mem.cqes[0].flags = 0;
+    mem.tail.store(1, Ordering::Relaxed);
+    // 3. Ring::poll delivers it
+    assert!(ring.poll(Some(std::time::Duration::ZERO)).is_ok());
+    assert!(k::wakes(0) == 1, "woken exactly once by the poll that consumed the completion");
+    assert!(mem.head.load(Ordering::Relaxed) == 1);
+    // 4. the future resolves with exactly what the kernel wrote
+    match Pin::new(&mut fut).poll(&mut ctx) {
+        Poll::Ready(Ok(b)) => {
+            assert!(b.as_ptr() == base && b.len() == n as usize, "the caller's buffer, n bytes initialised");
+            assert!(n < 1 || b[0] == data[0]);
+            assert!(n < 4 || b[3] == data[3]);
+            std::mem::forget(b);
+        }
+        _ => assert!(false, "completed read must resolve with its buffer"),
+    }
+    kani::cover!(n == 4);
+    kani::cover!(n == 0);
+    std::mem::forget(fut);
+    std::mem::forget(queue);
+}
